@@ -16,6 +16,24 @@ T = {
  "C15": (True, "exploration", "runtime monitoring: metamorphic oracle (frames identical across all chunkings of one body) + reference SSE parser, on the public decoder API (every split position) and end to end against a scripted TCP provider with the sse.chunk hook recording the partitions really delivered",
    "Millions of partitions of generated SSE texts through SseDecoder/EventFrameMapper (every single split for short streams, 2-splits, char-at-a-time, random) and thousands of real session runs receiving the same body under different TCP chunkings incl. splits inside multi-byte characters, CR|LF, field names and invalid UTF-8; evidence counts the distinct partitions observed at the hook.",
    "WHATWG-style reference restricted to documented SSE subset; end-to-end part explores the partitions TCP/hyper actually deliver."),
+ "C05": (True, "fault_enumeration", "runtime monitoring: crash-point enumeration by imaging (hook handler copies data dir + workspace .rip at every write boundary), each image restarted with the real engine and judged by validated replay, raw-log parser, exactly-once of acknowledged ids, further appends, and a differential of sampled queries vs the no-cache path",
+   "Every hit of every crash point (log append enter/locked/body/newline/flush, each sidecar/index/artifact/snapshot/index.json write and rename, sidecar rebuild steps) of every operation kind of seeded sequential workloads (incl. frames larger than the 8 KiB writer buffer, compaction jobs, branch/handoff, a routed session) is imaged and restarted; ~500-1500 images per quick run.",
+   "Process-crash model (completed write(2)s visible, no power loss); a directory copy at a hook equals what a kill leaves; sequential workload."),
+ "C09": (True, "exploration", "runtime monitoring: reference-model oracle rebuilt from the raw event log (cut points, plans, job brackets, checkpoint coverage) over seeded histories and parameter sweeps, byte-diff of the log around every call (noop/dry-run add nothing), fork-and-repeat determinism check, concurrent auto/schedule stress with injected delays",
+   "Thousands of cut-point/status/auto/schedule/manual-checkpoint calls per run across stride/limit/max_new/execute/dry_run/block_on_inflight values incl. 0, 1 and larger than the thread, judged against a raw-log truth model; summary artifacts read back and coverage checked; same request on two forks gives the same summary text; 2-8 concurrent callers with noise.",
+   "Truth model follows compaction.md/ADR-0011 as read from the docs; schedules limited to OS scheduling + injected delays."),
+ "C10": (True, "exploration", "runtime monitoring: byte-diff of the event log around every branch/handoff call judged against a raw-log lineage model (ADR-0009 cut resolution), over seeded parent histories x selector classes x summary classes, through both the store API and the HTTP routes",
+   "Thousands of branch/handoff calls per run: parent never touched, child opens with created+lineage frames, recorded cut equals the model, invalid selectors rejected with nothing appended, handoff summary resolvable, next child append gets seq 2 (also across restart).",
+   "Sequential only; model follows ADR-0009 as read."),
+ "C18": (True, "fault_enumeration", "runtime monitoring: holder-set invariant monitor on the real recovery loop under driven rendezvous schedules at auth.* hook points and seeded noise, from every leftover state, plus multi-process rounds of the real rip serve/rip CLI binaries (with injected delays and aborts) observed by liveness + endpoint probes",
+   "14 leftover states x 15 directed read-then-rename schedules + noise cases in-process (|holders|<=1, lock.json always carries the holder's record, live authority never displaced, dead-authority store usable again), and 2-12 real processes racing per round with kill -9 of the winner. Confirmed design-level races are listed as known findings keyed by schedule; live-state and unattributed violations always fail.",
+   "In-process contenders share one pid; attribution uses hook-trace order; the real binary is built from /repo with the verif feature."),
+ "C19": (True, "exploration", "runtime monitoring: black-box canary search on the real binary - a fresh rip serve per configuration next to a scripted provider that proves the secret was sent; every byte of data dir, workspace, HTTP/SSE responses, process output and CLI output is searched for the canary in raw/base64/hex/percent/JSON-escaped forms",
+   "~200 configurations per quick run: 15 ways of supplying the secret (every config layer, env indirection, env overrides, header values, per-request overrides, rip run --provider) x 7 run outcomes (success with tools, tool failure, 401/500 echoing the request, reset, refused, invalid follow-up) with request dumping off/on/capped; doctor output checked for presence+source only.",
+   "Only the listed encodings are searched; tool commands that print the authority's own environment are excluded."),
+ "C20": (True, "exploration", "runtime monitoring: invariant assertions after every TuiState::update (catch_unwind, overflow checks on) over generated frame sequences of all 38 frame types with hostile seq/timestamp/text, determinism by double fold and clone-then-suffix, render sweep on TestBackend, and the real rip headless renderers driven by a fake authority",
+   "Thousands of frame scripts per run (gaps, repeats, decreasing and extreme seqs, several streams, multi-byte text at every truncation boundary, all capacity settings), millions of lookup probes (returned frame must carry the asked seq), hundreds of thousands of renders incl. every terminal size 1..130 x 1..30, and ~150 real CLI runs compared across chunkings.",
+   "Bounds judged are the configured ones (max_frames, max_output_bytes, 8 KiB previews); Miri pass is thorough-tier only and small."),
 }
 NOT_BUILT_REASON = "monitor not built yet in this round (work in progress; see DESIGN.md section 3 for the design)"
 
